@@ -370,6 +370,9 @@ func (n *c25Node) feed(e c25Entry) {
 func (n *c25Node) barrier() bool {
 	// a no-op leadership message: once it has been taken, mainLoop has finished whatever it was doing
 	deadline := time.Now().Add(5 * time.Second)
+	if c25Pad > 0 {
+		deadline = time.Now().Add(15 * time.Second) // mainLoop may be compressing tens of MiB
+	}
 	n.svc.leaderObCh <- n.leader
 	for len(n.svc.leaderObCh) > 0 {
 		if time.Now().After(deadline) {
@@ -402,10 +405,14 @@ func (n *c25Node) vec() c25Vec {
 // settle waits for the quiescent point the model describes. ok=false: it never came.
 func (n *c25Node) settle() bool {
 	deadline := time.Now().Add(10 * time.Second)
+	if c25Pad > 0 {
+		deadline = time.Now().Add(20 * time.Second)
+	}
 	win := time.Duration(n.settleMs) * time.Millisecond
 	if n.maxRetries > 0 && win < 15*time.Millisecond {
 		win = 15 * time.Millisecond // several retry intervals: the leader gives up on event after event
 	}
+	start := time.Now()
 	for time.Now().Before(deadline) {
 		// 1. hand-off channel drained into the batcher
 		wb := int64(n.svc.writesToBatcher.Load())
@@ -430,6 +437,16 @@ func (n *c25Node) settle() bool {
 			}
 			if (n.ep.up.Load() || n.maxRetries > 0) && n.svc.fifo.HasNext() {
 				time.Sleep(50 * time.Microsecond)
+				continue
+			}
+		}
+		// large items: between taking an item from the FIFO and starting the POST the leader
+		// loop inflates and the sink serialises tens of MiB, invisible to every probe above.
+		// While the HWM is still below the highest key, give it time (bounded: if the item is
+		// never sent the state is judged as it is)
+		if c25Pad > 0 && n.leader && n.ep.up.Load() && time.Since(start) < 8*time.Second {
+			if hk, _ := n.svc.fifo.HighestKey(); hk > n.svc.HighWatermark() {
+				time.Sleep(time.Millisecond)
 				continue
 			}
 		}
@@ -1226,7 +1243,7 @@ func TestVerifC25(t *testing.T) {
 			{2, []string{fmt.Sprintf("entry 5 1 %d", rows), "entry 6 0 1", "leader 1", "entry 7 0 1", "timer", "sync", "restart", "leader 1"}},
 		} {
 			c25PadIdx = map[uint64]bool{5: true}
-			h := c25RunHistory(t, root, 900000+v.b, v.b, time.Hour, v.ops, 400, 0)
+			h := c25RunHistory(t, root, 900000+v.b, v.b, time.Hour, v.ops, 100, 0)
 			c25PadIdx = map[uint64]bool{}
 			rep.Count("histories-with-a-large-fifo-item")
 			if !h.ok {
